@@ -1513,3 +1513,98 @@ def rt_c14(tier="quick", first_only=False, count=None, only=None):
     if count is not None:
         count.append(n)
     return fails
+
+
+# --------------------------------------------------------------------------------------
+# C09: dependency structure from autodiff Jacobians after replacing every float leaf (arbitrary trained weights)
+def _set_float_leaves(tree, mode, seed):
+    import equinox as eqx
+
+    rng = np.random.default_rng(seed)
+    params, static = eqx.partition(tree, eqx.is_inexact_array)
+    leaves, tdef = jax.tree_util.tree_flatten(params)
+    if mode == "positive":
+        leaves = [jnp.asarray(rng.uniform(0.5, 1.5, size=l.shape), l.dtype) for l in leaves]
+    else:
+        leaves = [jnp.asarray(rng.normal(size=l.shape) * 3.0, l.dtype) for l in leaves]
+    return eqx.combine(jax.tree_util.tree_unflatten(tdef, leaves), static)
+
+
+def rt_c09(tier="quick", first_only=False, count=None):
+    import itertools as _it
+    import flowjax.bijections as B
+    import flowjax.masks as M
+    import jax.random as jr
+
+    fails, n = [], 0
+    key = jr.PRNGKey(0)
+    # mask helpers: documented patterns for every size in a small grid
+    for b0, b1, nb, k in _it.product((1, 2, 3), (1, 2), (1, 2, 3), (0, 1, -1)):
+        n += 1
+        m = np.asarray(M.block_tril_mask((b0, b1), nb, k))
+        want = np.array([[(r // b0) >= (c // b1) - k for c in range(b1 * nb)] for r in range(b0 * nb)])
+        if m.shape != want.shape or not np.array_equal(m, want):
+            fails.append(dict(what=f"block_tril_mask(({b0},{b1}), {nb}, k={k}) differs from the documented pattern", case=dict(b0=b0, b1=b1, n=nb, k=k)))
+        d = np.asarray(M.block_diag_mask((b0, b1), nb))
+        wd = np.array([[(r // b0) == (c // b1) for c in range(b1 * nb)] for r in range(b0 * nb)])
+        if not np.array_equal(d, wd):
+            fails.append(dict(what=f"block_diag_mask(({b0},{b1}), {nb}) differs from the documented pattern", case=dict(b0=b0, b1=b1, n=nb)))
+    for eq in (False, True):
+        n += 1
+        ir, orr = jnp.array([0, 1, 1, -1]), jnp.array([0, 1, 2])
+        m = np.asarray(M.rank_based_mask(ir, orr, eq=eq))
+        want = np.array([[(o >= i) if eq else (o > i) for i in np.asarray(ir)] for o in np.asarray(orr)])
+        if not np.array_equal(m, want):
+            fails.append(dict(what=f"rank_based_mask(eq={eq}) differs from the documented pattern", case=dict(eq=eq)))
+    dims = (1, 2, 3) if tier == "quick" else (1, 2, 3, 4)
+    for dim, cd, width, depth, mode in _it.product(dims, (None, 2), (1, 2, 5), (0, 1, 2), ("random", "positive")):
+        if tier == "quick" and depth == 2 and width == 1:
+            continue
+        n += 1
+        maf = B.MaskedAutoregressive(key, transformer=B.Affine(), dim=dim, cond_dim=cd, nn_width=width, nn_depth=depth)
+        maf = _set_float_leaves(maf, mode, dim * 7 + width)
+        x = jnp.asarray(np.random.default_rng(1).normal(size=dim))
+        c = None if cd is None else jnp.asarray(np.random.default_rng(2).normal(size=cd))
+        J = np.asarray(jax.jacobian(lambda v: maf.transform(v, c))(x))
+        case = dict(layer="MaskedAutoregressive", dim=dim, cond_dim=cd, width=width, depth=depth, weights=mode)
+        if np.any(np.abs(np.triu(J, 1)) > 0):
+            fails.append(dict(what=f"MaskedAutoregressive(dim={dim}, cond_dim={cd}, width={width}, depth={depth}, {mode} weights): output i depends on an input after i, J={J.tolist()}", case=case))
+        # transformer parameters of coordinate i depend only on inputs before i: d/dx_i of (y_i - scale_i * x_i) structure -> the diagonal is the transformer's own derivative
+        if mode == "positive" and width >= dim and depth >= 1 and dim >= 2:
+            Jl = np.tril(J, -1)
+            if np.any((np.abs(Jl) == 0) & (np.tril(np.ones_like(J), -1) > 0)):
+                fails.append(dict(what=f"MaskedAutoregressive(dim={dim}, width={width}, depth={depth}) with all-positive weights misses a permitted dependency: J={J.tolist()}", case=case))
+        if cd is not None and mode == "positive" and depth >= 1:
+            Jc = np.asarray(jax.jacobian(lambda cc: maf.transform(x, cc))(c))
+            if np.any(Jc == 0):
+                fails.append(dict(what=f"MaskedAutoregressive(dim={dim}, cond_dim={cd}, width={width}, depth={depth}): an output does not depend on the condition", case=case))
+        if first_only and fails:
+            return fails
+    for dim, ut, cd, mode in _it.product((2, 3, 4), (1, 2), (None, 2), ("random", "positive")):
+        if ut >= dim:
+            continue
+        n += 1
+        cp = _set_float_leaves(B.Coupling(key, transformer=B.Affine(), untransformed_dim=ut, dim=dim, cond_dim=cd, nn_width=4, nn_depth=1), mode, dim + ut)
+        x = jnp.asarray(np.random.default_rng(3).normal(size=dim))
+        c = None if cd is None else jnp.asarray(np.random.default_rng(4).normal(size=cd))
+        y = np.asarray(cp.transform(x, c))
+        J = np.asarray(jax.jacobian(lambda v: cp.transform(v, c))(x))
+        if not np.array_equal(y[:ut], np.asarray(x)[:ut]) or np.any(J[:ut, ut:] != 0) or np.any(J[ut:, ut:] - np.diag(np.diag(J[ut:, ut:])) != 0):
+            fails.append(dict(what=f"Coupling(dim={dim}, untransformed_dim={ut}, cond_dim={cd}, {mode} weights): first block changed or a transformed coordinate depends on another transformed coordinate", case=dict(layer="Coupling", dim=dim, ut=ut)))
+    for dim, cd, depth, bd, mode in _it.product((1, 2, 3), (None, 2), (0, 1, 2), (1, 3), ("random", "positive")):
+        n += 1
+        try:
+            bn = B.BlockAutoregressiveNetwork(key, dim=dim, cond_dim=cd, depth=depth, block_dim=bd)
+        except Exception:  # noqa: BLE001
+            continue
+        bn = _set_float_leaves(bn, mode, dim * 3 + depth)
+        x = jnp.asarray(np.random.default_rng(5).normal(size=dim))
+        c = None if cd is None else jnp.asarray(np.random.default_rng(6).normal(size=cd))
+        J = np.asarray(jax.jacobian(lambda v: bn.transform(v, c))(x))
+        if np.any(np.triu(J, 1) != 0) or np.any(np.diag(J) <= 0):
+            fails.append(dict(what=f"BlockAutoregressiveNetwork(dim={dim}, cond_dim={cd}, depth={depth}, block_dim={bd}, weights={mode}): Jacobian is not lower triangular with positive diagonal, J={J.tolist()}", case=dict(layer="BNAF", dim=dim, depth=depth, block_dim=bd, weights=mode)))
+        if first_only and fails:
+            return fails
+    if count is not None:
+        count.append(n)
+    return fails
